@@ -43,11 +43,26 @@ func init() {
 		return a.T
 	}
 	acquire := func(e *Exec, fr *Frame, st *State, args []Val, cc *ssa.CallCommon, pos token.Pos) Val {
-		e.lockAcquire(fr, st, lockID(e, args[0]), args[0], pos)
+		id := lockID(e, args[0])
+		// state invariant of the ghost lock sets: exclusively held implies held
+		e.sc.assume(st.reach, fmt.Sprintf("(=> (select %s %s) (select %s %s))", e.hget(st, e.heapMap("G_heldx", "(Array Int Bool)")), id, e.hget(st, "G_held"), id))
+		e.lockAcquire(fr, st, id, args[0], pos)
+		// exclusive unless it is a read lock
+		shared := false
+		if f := cc.StaticCallee(); f != nil && f.Name() == "RLock" {
+			shared = true
+		}
+		hx := e.heapMap("G_heldx", "(Array Int Bool)")
+		if !shared {
+			e.hset(st, hx, sto(e.hget(st, hx), id, "true"))
+		}
 		return Val{T: "0"}
 	}
 	release := func(e *Exec, fr *Frame, st *State, args []Val, cc *ssa.CallCommon, pos token.Pos) Val {
-		e.lockRelease(fr, st, lockID(e, args[0]), args[0], pos)
+		id := lockID(e, args[0])
+		e.lockRelease(fr, st, id, args[0], pos)
+		hx := e.heapMap("G_heldx", "(Array Int Bool)")
+		e.hset(st, hx, sto(e.hget(st, hx), id, "false"))
 		return Val{T: "0"}
 	}
 	for _, k := range []string{"(*sync.Mutex).Lock", "(*sync.RWMutex).Lock", "(*sync.RWMutex).RLock", "(sync.Locker).Lock"} {
